@@ -2,16 +2,17 @@ SPECIFICATION Spec
 CONSTANTS
   NG = 1
   NO = 1
-  ND = 2
+  ND = 1
   NP = 1
   Names = {"a", "b"}
   Vals = {1, 2}
-  Acts = {"CreateGroup", "CreateObject", "AddData", "Rename", "SetFlag", "SetVal", "Move", "AddToGroup", "RemoveFromGroup", "RemovePG", "RemoveViaWorkspace", "RemoveViaParent", "DropRef", "Collect", "Purge", "Copy", "Close", "Open"}
+  Acts = {"CreateGroup", "CreateObject", "AddData", "Rename", "SetFlag", "SetVal", "Move", "AddToGroup", "RemoveFromGroup", "RemovePG", "RemoveViaWorkspace", "RemoveViaParent", "DropRef", "Collect", "Purge", "Copy", "Close", "Open", "MoveSame", "StripOpt"}
   Deviations = {"CloseKeepsOrphans"}
-  MaxDepth = 5
+  MaxDepth = 6
 CONSTRAINT DepthBound
 VIEW vw
 INVARIANT TypeOK
+INVARIANT DirtyOnlyInRW
 INVARIANT ReopenEqualsLive
 INVARIANT LinksToNodes
 INVARIANT OneParent
@@ -21,6 +22,7 @@ INVARIANT NoDanglingPG
 INVARIANT RegistryMatchesMemory
 PROPERTY Footprint
 PROPERTY FrozenFile
+PROPERTY OptStaysStripped
 INVARIANT ExportState
 ACTION_CONSTRAINT ExportTrans
 CHECK_DEADLOCK FALSE
